@@ -408,7 +408,7 @@ def rand_props(rng, k):
 def generate(ctx):
     rng = ctx.rng
     quick = ctx.tier == "quick"
-    reps = 1 if quick else 6
+    reps = 3 if quick else 18
 
     def emit(stratum, c, both=True, known=False):
         n = int(np.prod(c["shape"]))
